@@ -180,6 +180,19 @@ open TongoGen.TlbTypes in
 theorem impl_eq_spec_Transaction : implementsSpec env desc_tlb_Transaction Spec.Transaction = true := by
   decide +kernel
 
+
+/-! wallet v5 (r1): the list of out-actions, the extended actions and the signed / extension bodies. The extended
+actions (`chain`) have a model and this schema tie, but no round-trip theorem (C03): the decoder follows the next
+reference of the cell whenever there is one, which the greedy / non-greedy split of `RT` does not express. -/
+open TongoGen.TlbTypes in
+theorem impl_eq_spec_OutList : implementsSpec env desc_wallet_W5Actions Spec.OutList = true := by decide +kernel
+open TongoGen.TlbTypes in
+theorem impl_eq_spec_W5ExtendedAction :
+    implementsSpec env desc_wallet_W5ExtendedAction Spec.W5ExtendedAction = true := by decide +kernel
+open TongoGen.TlbTypes in
+theorem impl_eq_spec_WalletV5R1Body : implementsSpec env desc_wallet_MessageV5 Spec.WalletV5R1Body = true := by
+  decide +kernel
+
 /-- **impl_eq_spec_hashmapE**: a Go `HashmapE[K, V]` against `HashmapE n X` of the schema. The matcher asks for the
 key width `n`, a key descriptor that implements the schema's key type and a value descriptor that implements `X`;
 then every in-domain dictionary (empty or not) is written as `hme_empty$0` / `hme_root$1 root:^(Hashmap n X)` where the
